@@ -234,6 +234,7 @@ POINTS:
 				fieldPrefix.WriteString(v)
 			} else {
 				n.diag.Error("point missing tag for flatten operation", fmt.Errorf("tag %s is missing from point", tag))
+				fieldPrefix.Reset()
 				continue POINTS
 			}
 		}
